@@ -277,7 +277,7 @@ def task(item):
             for ident, what in bad:
                 out_v.append(viol(ident + ':' + inputs.get('shape_class', ''), what, inputs))
         else:
-            oc['ok'] += 1
+            oc['ok:%s:%s' % (inputs.get('style', inputs.get('shape_class', 'call')), 'deprecated' if inputs.get('deprecated') else 'current')] += 1
 
     if kind == 'struct':
         ns, rname, ver, shape, res, dep, style = u['routes'][idx]
